@@ -415,6 +415,6 @@ def machine_for(kind):
 
 def strata(tier):
     q = tier == "quick"
-    n = {"P": 120, "L": 120, "PL": 120, "S": 120, "H": 120, "G": 100, "K": 48}
-    mult = 1 if q else 40
+    n = {"P": 200, "L": 200, "PL": 200, "S": 200, "H": 200, "G": 160, "K": 80}
+    mult = 1 if q else 25
     return [Stratum("history/" + k, "machine", machine_for(k), n[k] * mult) for k in KINDS]
